@@ -25,7 +25,7 @@ for p in ALL:
 na = [{"property_id": p, "reason": M.NOT_CLAIMED.get(p, "check not built yet in this round; planned in DESIGN.md section 7")} for p in ALL if p not in [c["property_id"] for c in checks]]
 man = {
     "version": 1,
-    "setup_cmd": "python3 tools/build.py",
+    "setup_cmd": "python3 tools/build.py && python3 tools/selftest.py",
     "hooks": {"guard": "ONETBB_VERIF", "enable": "harness builds compile /repo sources with -DONETBB_VERIF=1 (tools/build.py); the stock CMake build never defines it",
               "baseline_off_cmd": "cmake --build /repo/_build && ctest --test-dir /repo/_build -j8 --timeout 900",
               "source_commits": M.HOOK_COMMITS, "add_only": True},
